@@ -48,6 +48,9 @@ CHECKS = {
     "C18": ("Lean 4 proof over a file-tree model + differential correspondence + real interrupted runs (RLIMIT_FSIZE, strace fault injection)",
             "C18_frame (user files untouched, any tree), C18_restores (factory files equal the template after a successful run), C18_blacklist_created; crash states of the model are replayed on the real function.",
             "Trusted: per-syscall behaviour of the filesystem; a crash inside write(2) is an arbitrary prefix; permissions not varied (root)."),
+    "C19": ("Lean 4 proof over a transition-system model of the watcher goroutine + source facts regenerated from monitor.go + differential runs of the real watcher on inotify",
+            "C19_accounting / C19_silent (notifications ≤ write events on names with the suffix, any schedule), C19_take_offers / C19_no_take_while_offering, C19_stops (guarded hand-off: the goroutine returns after cancellation without a reader, from every state), C19_stuck_unguarded (witness for the repaired defect), C19_source_facts (suffix \".toml\", hand-off selected against ctx.Done(), Op test).",
+            "Trusted/partial: the kernel reports in-place modification as IN_MODIFY and fsnotify maps it to Write; timing is sampled (500 ms / 1 s limits); Go channel and select semantics as written in the model."),
     "C20": ("Lean 4 proof over Normalize model + differential correspondence on permuted handler lists",
             "(theorems for the Normalize model are being added; at present the decision rests on the differential run over permuted handler lists)",
             "evdev.Open is a parameter (handlers cannot be opened in the sandbox)."),
